@@ -140,11 +140,21 @@ Print Assumptions C02_interim_responses_skipped.
 (* the exchange as the caller sees it: final response + body through the chosen read mode *)
 Theorem C02_h1_delivery : forall meth m sizes ims w r b,
   Forall interim_ok ims -> length ims <= max_1xx ->
-  parse_response meth br_size w = Accepted r b -> is_1xx_nonterminal (r_code r) = false ->
+  parse_response meth br_size w = Accepted r b -> (r_code r < 100 \/ 199 < r_code r)%Z ->
   h1_exchange meth m sizes (render_interims ims ++ w) =
     Some {| d_resp := r; d_body := b; d_api := run_mode m (r_code r) sizes (body_reader b) |}.
 Proof. exact h1_delivery. Qed.
 Print Assumptions C02_h1_delivery.
+
+(* ... and they are reported to the caller (httptrace.Got1xxResponse: 100-continue, 103 early
+   hints, ...) with exactly their own status and header multimap, in order *)
+Theorem C02_interim_heads_delivered : forall meth ims fuel w r rest,
+  Forall interim_ok ims -> length ims < fuel ->
+  read_response_head meth br_size w = inr (r, rest) -> is_1xx_nonterminal (r_code r) = false ->
+  interim_heads fuel meth br_size (render_interims ims ++ w) =
+    map (fun i => (i_code i, collect (after_conn (map field_of (i_fields i))))) ims.
+Proof. exact interim_heads_delivered. Qed.
+Print Assumptions C02_interim_heads_delivered.
 
 (* ---------- HTTP/2, HTTP/3 ---------- *)
 
